@@ -11,6 +11,7 @@ from .. import flowcheck
 from .. import floworacle as fo
 from .. import floworacle_r3 as f3
 from .. import floworacle_r4 as f4
+from .. import floworacle_r5 as f5
 
 LEAN_MODULES = ['Props.C07', 'Props.Agreement', 'Props.Translated_C07']
 TRUSTED = ['harness/flow_impl.py (yaml renderer, canonicaliser, virtual clock, scripted random.uniform)',
@@ -39,7 +40,8 @@ def run(env, res):
                 'None/0/\'\'/False/[]/{}, 12% with a malformed group body or sequence item, 35% written in another '
                 'yaml layout: flow style, JSON, first step on line 1, other indentation, single-quoted / plain / block scalars, anchors + aliases, merge keys; every 4th case runs with the root logger at DEBUG, every 8th at INFO, every 8th at NOTIFY - the log level is an input); a case is '
                 'non-trivial when the model accepts it and it terminates; distinct by canonical program text')
-    directed = [('c01-handler-hands-over', f4.c01_handover_family, env.n(50, 100000)),
+    directed = [('c06-nested-error-classes', f5.c06_nested_errors_family, env.n(200, 100000)),
+                ('c01-handler-hands-over', f4.c01_handover_family, env.n(50, 100000)),
                 ('c07', fo.c07_family, env.n(150, 100000)), ('c06', fo.c06_family, env.n(100, 2000)), ('c01-straight', fo.c01_family, env.n(100, 2000)),
                 ('c07-str', fo.c07_str_family, env.n(34, 100000)), ('c03-falsy-call', fo.c03_falsy_call_family, env.n(20, 100000)),
                 ('c06-fault', fo.c06_fault_family, env.n(40, 100000)),
